@@ -25,10 +25,12 @@ SEED_ACLS = [
               "50 permit tcp host 10.0.0.1 any eq 443"]},
     {"platform": "nxos", "port_nr": False, "protocol_nr": False,
      "body": ["permit tcp 10.0.0.0/24 any eq 22", "remark = B1", "permit tcp 10.0.0.0/25 any eq 22 log",
-              "deny 47 any 192.168.0.0 0.0.3.255", "permit ip any any"]},
+              "deny 47 any 192.168.0.0 0.0.3.255", "permit ip 172.16.0.0/12 any", "permit tcp 172.16.1.0/24 any",
+              "permit udp 172.16.2.0/24 any eq 53"]},
     {"platform": "ios", "port_nr": True, "protocol_nr": True,
      "body": ["5 remark = B1", "7 permit 6 any any range 514 515", "9 permit udp any eq 514 any",
-              "11 remark = B1", "13 deny ip 10.0.0.0 0.255.255.255 any", "15 deny ip 10.1.0.0 0.0.255.255 any"]},
+              "11 remark = B1", "13 deny ip 10.0.0.0 0.255.255.255 any", "15 deny ip 10.1.0.0 0.0.255.255 any",
+              "17 deny tcp 10.2.0.0 0.0.255.255 any eq 22", "19 deny 47 10.3.0.0 0.0.255.255 any"]},
 ]
 EXH_OPS = [["platform", "ios"], ["platform", "nxos"], ["port_nr", True], ["protocol_nr", True], ["type_ext"],
            ["resequence", 10, 10], ["group", "= "], ["ungroup"], ["sort"], ["reverse"], ["copy"], ["import_uuid"],
